@@ -679,6 +679,91 @@ REGRESSIONS = [witness_len98, witness_c64, witness_overflow, witness_overflow_ma
 WITNESSES = [("auto-neg32", witness_neg32)]
 
 
+# ================================================================== logging scripts (what a script receives, with its type)
+LOG_PY = r'''
+def fmt(v):
+    if v is None: return "N"
+    if isinstance(v, bool): return "B%d" % v
+    if isinstance(v, int): return "I%d" % v
+    if isinstance(v, float): return "F" + v.hex()
+    if isinstance(v, str): return "S" + v.encode("utf-8", "surrogateescape").hex()
+    return "?" + type(v).__name__
+def uftrace_entry(ctx):
+    a = ctx.get("args")
+    print("E %s %d %s" % (ctx["name"], ctx["depth"], "-" if a is None else " ".join([type(a).__name__] + [fmt(x) for x in a])), flush=True)
+def uftrace_exit(ctx):
+    print("X %s %d %s" % (ctx["name"], ctx["depth"], "value " + fmt(ctx["retval"]) if "retval" in ctx else "-"), flush=True)
+'''
+LOG_LUA = r'''
+local function fmt(v)
+  local t = type(v)
+  if t == "nil" then return "N" end
+  if t == "number" then return "D" .. string.format("%.17g", v) end
+  if t == "string" then return "S" .. (v:gsub(".", function(c) return string.format("%02x", string.byte(c)) end)) end
+  return "?" .. t
+end
+function uftrace_entry(ctx)
+  local a = ctx["args"]
+  local s = "-"
+  if a ~= nil then
+    s = type(a)
+    local n = 0
+    for k, _ in pairs(a) do if k > n then n = k end end
+    for i = 1, n do s = s .. " " .. fmt(a[i]) end
+  end
+  print(string.format("E %s %d %s", ctx["name"], ctx["depth"], s))
+end
+function uftrace_exit(ctx)
+  local r = ctx["retval"]
+  if r == nil then print(string.format("X %s %d -", ctx["name"], ctx["depth"]))
+  else print(string.format("X %s %d value %s", ctx["name"], ctx["depth"], fmt(r))) end
+end
+'''
+
+
+def script_token(tok, spec):
+    """one logged value -> observed item ("int", z) | ("flt", size, bits) | ("str", bytes) | ("invalid",) | ("none",)"""
+    k, body = tok[:1], tok[1:]
+    if k == "N":
+        return ("none",)
+    if k in ("I", "B"):
+        return ("int", int(body))
+    if k == "S":
+        b = bytes.fromhex(body)
+        return ("invalid",) if b == b"<invalid value>" else ("str", b)
+    if k in ("F", "D"):
+        d = float.fromhex(body) if k == "F" else float(body)
+        isflt = spec is not None and FMTS[spec["fmt"]] == "FFloat"
+        if not isflt and k == "D" and d == int(d):
+            return ("int", int(d))                      # a Lua number that holds an integer
+        size = spec["size"] if isflt else 8
+        try:
+            bits = int.from_bytes(struct.pack("<f", d), "little") if size == 4 else \
+                int.from_bytes(struct.pack("<d", d), "little")
+        except OverflowError:
+            bits = 0x7f800000
+        return ("flt", size, bits)
+    return ("none",)
+
+
+def coq_oitem(o):
+    if o[0] == "int":
+        return "OInt (%d)%%Z" % o[1]
+    if o[0] == "flt":
+        return "OFlt %d %s" % (o[1], num(o[2]))
+    if o[0] == "str":
+        return "OStr %s" % blist(o[1])
+    return "OInvalid" if o[0] == "invalid" else "ONone"
+
+
+def coq_sobs(so):
+    if so is None:
+        return "None"
+    def opt(x):
+        return "None" if x is None else "Some [%s]" % "; ".join(coq_oitem(o) for o in x)
+    return "Some {| so_args := %s; so_ret := %s |}" % (opt(so["args"]), opt(so["ret"]))
+
+
 # ================================================================== running the implementation
 class Impl:
     def __init__(self, ctx):
@@ -869,7 +954,46 @@ class Impl:
         # dump: raw values per call
         p = subprocess.run(["timeout", "60", exe, "dump", "--no-pager", "-d", d], capture_output=True, timeout=90)
         self.parse_dump(cases, p.stdout)
+        # the script readers on the same stream
+        self.script_ok = {}
+        for lang, text in (("py", LOG_PY), ("lua", LOG_LUA)):
+            sc = os.path.join(self.ctx.scratch, "c09log." + lang)
+            if not os.path.exists(sc):
+                open(sc, "w").write(text)
+            p = subprocess.run(["timeout", "60", exe, "script", "--no-pager", "-S", sc, "-d", d], capture_output=True,
+                               timeout=90)
+            self.script_ok[lang] = self.parse_script(cases, lang, p)
         return ok
+
+    def parse_script(self, cases, lang, p):
+        """c["obs"][lang] = {"args": [items] | None, "ret": [item] | None} per call, or None where the callbacks of
+        the call are missing / out of order (then self.last_script keeps the output)"""
+        lines = [l for l in p.stdout.decode("latin-1").split("\n") if l[:2] in ("E ", "X ")]
+        head = ["E fn00 0 -", "E fn00 1 -", "X fn00 1 -", "X fn00 0 -"]
+        good = p.returncode == 0 and lines[:4] == head
+        cur = 4
+        for c in cases:
+            c["obs"][lang] = None
+            if not good:
+                continue
+            name = "fn%02d" % c["k"]
+            blk = lines[cur:cur + 4]
+            if len(blk) < 4 or not blk[0].startswith("E %s 0 " % name) or blk[1:3] != ["E fn00 1 -", "X fn00 1 -"] \
+                    or not blk[3].startswith("X %s 0 " % name):
+                good = False
+                continue
+            a = blk[0].split(" ")[3:]
+            r = blk[3].split(" ")[3:]
+            args = None if a == ["-"] else [script_token(t, c["pspecs"][i] if i < len(c["pspecs"]) else None)
+                                            for i, t in enumerate(a[1:])]
+            ret = None if r == ["-"] else [script_token(t, c["prspecs"][0] if c["prspecs"] else None) for t in r[1:2]]
+            c["obs"][lang] = {"args": args, "ret": ret}
+            cur += 4
+        if good and lines[cur:] != ["E fn00 0 -", "X fn00 0 -"]:
+            good = False
+        if not good:
+            self.last_script = (lang, p.returncode, p.stdout[-1500:], p.stderr[-600:])
+        return good
 
     def parse_dump(self, cases, out):
         """per call: list of (kind, bits, value) for the scalar args / retval as `uftrace dump` prints them"""
@@ -961,7 +1085,7 @@ def coq_aval(c, a):
     if a[0] == "bad":
         return "ABad %s" % num(c["env"]["bad"])
     if a[0] == "sym":
-        return "ASym %s" % nlist(b"fn%02d" % (a[1] % 32))
+        return "ASym %s %s" % (num(c["env"]["f0"] + 256 * (a[1] % 32)), nlist(b"fn%02d" % (a[1] % 32)))
     if a[0] == "flt":
         return "AFlt %d" % a[1]
     return "AStruct"
@@ -1008,9 +1132,9 @@ def coq_case(c):
               len(o["img_entry"]), len(o["img_exit"]), blist(o["stream"]),
               blist(o["args_text"] if o["args_text"] is not None else b"\0?"),
               blist(o["ret_text"] if o["ret_text"] is not None else b"\0?")))
-    return ("(let i := %s in {| t_call := %s; t_obs := %s; t_aargs := [%s]; t_aret := [%s] |})"
+    return ("(let i := %s in {| t_call := %s; t_obs := %s; t_aargs := [%s]; t_aret := [%s]; t_py := %s; t_lua := %s |})"
             % (inp, call, obs, "; ".join(coq_aval(c, a) for a in c["actual"]),
-               "; ".join(coq_aval(c, a) for a in c["ractual"])))
+               "; ".join(coq_aval(c, a) for a in c["ractual"]), coq_sobs(o.get("py")), coq_sobs(o.get("lua"))))
 
 
 PRE = """From Coq Require Import NArith ZArith List Bool.
@@ -1031,13 +1155,15 @@ def evaluate(ctx, batches, name="cases"):
         defs.append("Definition cases%d : list tcase := [\n%s\n]." % (bi, ";\n".join(coq_case(c) for c in cases)))
         evals.append(("mismatch%d" % bi, "bad_indices (t_agrees syms%d) cases%d 0" % (bi, bi)))
         evals.append(("violations%d" % bi, "bad_indices t_ok cases%d 0" % bi))
+        evals.append(("sviolations%d" % bi, "bad_indices t_ok_script cases%d 0" % bi))
     res = coq.run_cases(ctx, name, PRE, "\n".join(defs), evals)
     if res is None:
         return None
-    out = {"mismatch": [], "violations": []}
+    out = {"mismatch": [], "violations": [], "script": set()}
     for bi in range(len(batches)):
         out["mismatch"] += [(bi, i) for i in coq.parse_nat_list(res["mismatch%d" % bi])]
         out["violations"] += [(bi, i) for i in coq.parse_nat_list(res["violations%d" % bi])]
+        out["script"] |= set((bi, i) for i in coq.parse_nat_list(res["sviolations%d" % bi]))
     return out
 
 
@@ -1384,7 +1510,8 @@ def observed(c):
             "stream": o["stream"].hex(),
             "replay_args": None if o["args_text"] is None else o["args_text"].decode("latin-1"),
             "replay_ret": None if o["ret_text"] is None else o["ret_text"].decode("latin-1"),
-            "dump_args": o.get("dump_args"), "dump_ret": o.get("dump_ret")}
+            "dump_args": o.get("dump_args"), "dump_ret": o.get("dump_ret"),
+            "script_py": repr(o.get("py")), "script_lua": repr(o.get("lua"))}
 
 
 def run_batch_checked(ctx, impl, b):
@@ -1426,7 +1553,31 @@ def run_cases_through(ctx, impl, cases, name):
                               {"mode": "resync", "case": public(bad), "batch": [public(c) for c in b],
                                "replay_rc": rc, "replay_output_tail": out[-1500:].decode("latin-1"),
                                "replay_stderr": err[-500:].decode("latin-1")}, True)
-    res = evaluate(ctx, batches, name) if batches else {"mismatch": [], "violations": []}
+        elif not all(impl.script_ok.values()):
+            lang, rc, out, err = impl.last_script
+            bad = next((c for c in b if c["obs"].get(lang) is None), b[0])
+            if len(b) > 1:
+                # find the call that upsets the script reader: run the calls of the batch one by one
+                for c1 in b:
+                    c2 = json.loads(json.dumps(public(c1)))
+                    c2["strings"] = {int(k): v for k, v in c2["strings"].items()}
+                    c2["objs"] = {int(k): v for k, v in c2["objs"].items()}
+                    try:
+                        impl.run_batch([c2])
+                    except (RuntimeError, subprocess.TimeoutExpired):
+                        continue
+                    if not all(impl.script_ok.values()):
+                        bad = c1
+                        lang, rc, out, err = impl.last_script
+                        break
+            ctx.extra["script_failures"] = ctx.extra.get("script_failures", 0) + 1
+            if ctx.extra["script_failures"] <= 3:
+                ctx.violation("C09: `uftrace script` (%s) %s on the recorded arguments"
+                              % (lang, "crashes (rc=%d)" % rc if rc not in (0, 1) else
+                                 "does not deliver the callbacks of every call in order"),
+                              {"mode": "script", "lang": lang, "case": public(bad), "script_rc": rc,
+                               "script_output_tail": out.decode("latin-1"), "script_stderr": err.decode("latin-1")}, True)
+    res = evaluate(ctx, batches, name) if batches else {"mismatch": [], "violations": [], "script": set()}
     return batches, res
 
 
@@ -1443,7 +1594,10 @@ def verdict(ctx, batches, res, what="generated"):
             hi = max(len(c["obs"]["img_entry"]), len(c["obs"]["img_exit"]))
             ctx.violation("C09 violated (%s case): %s" % (what,
                           ("libmcount stored %d bytes past the frame's 1024-byte argument buffer" % (hi - 1024))
-                          if hi > 1024 else "replay does not show the values that were passed"),
+                          if hi > 1024 else
+                          "a script (uftrace script -S, python / lua) does not receive the values that were passed in "
+                          "ctx[\"args\"] / ctx[\"retval\"]" if (bi, i) in res.get("script", ()) else
+                          "replay does not show the values that were passed"),
                           {"mode": "values", "case": public(c), "observed": observed(c), "argbuf_extent": hi}, True)
     for b in batches:
         for c in b:
